@@ -1,5 +1,7 @@
 /-
-  Core engine (stage S2): `eng_ok`, `fetch_sound`, `bump_inv`, writes, `run_inv`, `c02_s2`.  Core Lean only.
+  CoreAcc engine (adapted copy of CoreTop.lean): `eng_ok`, `fetch_sound`, `bump_inv`, writes,
+  `init_inv`, the compiled expression language is well-formed.  (`run_inv` is in CoreAccHist.lean,
+  after the search of `accumulated_by`.)  Core Lean only.
 -/
 import SalsaVerif.Proofs.CoreAccFetch
 
